@@ -125,12 +125,13 @@ Lemma parallelize_loud (f : A -> res R) args ncpu s1 s2 r0 w m :
   exec (Z.to_nat ncpu - 1) (fun pid => mapM f (chunk args (Z.to_nat ncpu) pid)) s1 (init r0)
     = Run w m ->
   quiescent (Z.to_nat ncpu - 1) w ->
+  no_partial (Z.to_nat ncpu - 1) w ->
   poll_bound (Z.to_nat ncpu - 1) w <= n_master s2 ->
   exists o, parallelize f args ncpu (s1 ++ s2) = Some o /\
             (forall r, o = Done r -> mapM f args = Ok r).
 Proof.
-  intros Hne Hn H0 H1 Hq Hb.
-  destruct (gather_loud _ _ r0 s1 s2 w m H1 Hq Hb) as [o [Ho _]].
+  intros Hne Hn H0 H1 Hq Hnp Hb.
+  destruct (gather_loud _ _ r0 s1 s2 w m H1 Hq Hnp Hb) as [o [Ho _]].
   exists o. split.
   - rewrite parallelize_multi by assumption. now rewrite H0, Ho.
   - intros r ->. apply (parallelize_safe f args ncpu (s1 ++ s2)).
